@@ -5,8 +5,7 @@ RULE = ("tok_run: limits 1..4, random histories (length 4..60) of get_token on t
         "single-threaded at the granularity of those operations, one counting waker per request; directed histories: k releases in a row with "
         ">= k waiters queued, cancellation of a notified waiter, barging by a fresh request. Oracle: live tokens <= limit at every step, a first "
         "poll with a free slot is Ready, and whenever a slot is free while registered requests are pending at least one pending request has been "
-        "woken since it last registered. Thorough additionally runs multi-threaded stress on the real Runner (outcomes must satisfy the same "
-        "oracle). Non-trivial: histories in which some request had to wait; distinct = distinct case lines.")
+        "woken since it last registered. Non-trivial: histories in which some request had to wait; distinct = distinct case lines.")
 ASSUMPTIONS = ["async-lock 3.4.0 Semaphore and event-listener 5.3.1 Event are modelled from their source (third-party code, not verified)",
                "thread interleavings inside those crates' atomics are below the model's granularity"]
 
